@@ -6,6 +6,7 @@ package main
 import (
 	"bytes"
 	"encoding/json"
+	"encoding/xml"
 	"errors"
 	"fmt"
 	"io"
@@ -37,7 +38,7 @@ import (
 
 var verifFuncs = customfuncs.CustomFuncs{
 	"verif_add":  func(_ *transformctx.Ctx, a, b int64) (int64, error) { return a + b, nil },
-	"verif_neg":  func(_ *transformctx.Ctx, f float64) (float64, error) { return -f, nil },
+	"verif_neg":  func(_ *transformctx.Ctx, f float64) (float64, error) { return 0 - f, nil }, // 0 - f: no negative zero
 	"verif_not":  func(_ *transformctx.Ctx, b bool) (bool, error) { return !b, nil },
 	"verif_echo": func(_ *transformctx.Ctx, v interface{}) (interface{}, error) { return v, nil },
 	"verif_count": func(_ *transformctx.Ctx, vs ...interface{}) (int64, error) {
@@ -587,4 +588,194 @@ func dumpDecl(d *transform.Decl) (term string, classes []int, du *dumper) {
 	du.collect(d)
 	term = du.term(d, 0)
 	return term, du.order, du
+}
+
+// ---- an independent reading of the XML input (encoding/xml), for the name-test oracle -----------
+
+type xnode struct {
+	Local, Space string // Space = namespace URL of the prefix ("" = no prefix: no default namespace is declared)
+	Text         string // character data (text nodes only)
+	IsText       bool
+	Kids         []*xnode
+}
+
+func parseXML(input string) *xnode {
+	dec := xml.NewDecoder(strings.NewReader(input))
+	root := &xnode{}
+	stack := []*xnode{root}
+	for {
+		tok, err := dec.Token()
+		if err != nil {
+			break
+		}
+		switch t := tok.(type) {
+		case xml.StartElement:
+			n := &xnode{Local: t.Name.Local, Space: t.Name.Space}
+			top := stack[len(stack)-1]
+			top.Kids = append(top.Kids, n)
+			stack = append(stack, n)
+		case xml.EndElement:
+			if len(stack) > 1 {
+				stack = stack[:len(stack)-1]
+			}
+		case xml.CharData:
+			top := stack[len(stack)-1]
+			top.Kids = append(top.Kids, &xnode{IsText: true, Text: string(t)})
+		}
+	}
+	return root
+}
+
+func (x *xnode) innerText() string {
+	if x.IsText {
+		return x.Text
+	}
+	var sb strings.Builder
+	for _, k := range x.Kids {
+		sb.WriteString(k.innerText())
+	}
+	return sb.String()
+}
+
+func bareName(s string) bool {
+	if s == "" {
+		return false
+	}
+	for _, c := range s {
+		if !(c >= 'a' && c <= 'z') {
+			return false
+		}
+	}
+	return true
+}
+
+// xmlDirect: for every record (child element n of the document element, in order) what the
+// members `{xpath: NAME}` and `{array: [{xpath: NAME}]}` of FINAL_OUTPUT must be: NAME selects
+// the child elements with that local name and NO prefix.
+func xmlDirect(input string, fo *GDecl) [][]memberExp {
+	if fo == nil || !fo.HasObject {
+		return nil
+	}
+	doc := parseXML(input)
+	if len(doc.Kids) == 0 {
+		return nil
+	}
+	var recs []*xnode
+	for _, k := range doc.Kids[0].Kids {
+		if !k.IsText && k.Local == "n" && k.Space == "" {
+			recs = append(recs, k)
+		}
+	}
+	var out [][]memberExp
+	for _, rec := range recs {
+		var exps []memberExp
+		sel := func(name string) []*xnode {
+			var m []*xnode
+			for _, k := range rec.Kids {
+				if !k.IsText && k.Local == name && k.Space == "" {
+					m = append(m, k)
+				}
+			}
+			return m
+		}
+		for _, kv := range fo.Object {
+			d := kv.D
+			plainField := func(e *GDecl) bool {
+				return e.Const == nil && e.External == nil && e.Func == nil && e.Template == nil && !e.HasObject && !e.HasArray &&
+					e.XDyn == nil && e.XPath != nil && bareName(*e.XPath)
+			}
+			switch {
+			case plainField(d):
+				m := sel(*d.XPath)
+				me := memberExp{Key: kv.Key}
+				var val interface{}
+				switch {
+				case len(m) == 0:
+					me.State = "absent"
+					if d.Keep {
+						me.State = "present"
+					}
+				case len(m) > 1:
+					me.State = "fail"
+				default:
+					me.State, val = expectNorm(d, m[0].innerText())
+				}
+				if me.State == "present" {
+					b, _ := json.Marshal(map[string]interface{}{kv.Key: val})
+					me.Val = canonBytes(b)
+				}
+				exps = append(exps, me)
+			case d.HasArray && len(d.Array) == 1 && plainField(d.Array[0]) && d.XPath == nil && d.XDyn == nil:
+				e := d.Array[0]
+				me := memberExp{Key: kv.Key, State: "present"}
+				vals := []interface{}{}
+				for _, x := range sel(*e.XPath) {
+					st, v := expectNorm(e, x.innerText())
+					switch st {
+					case "fail":
+						me.State = "fail"
+					case "present":
+						vals = append(vals, v)
+					}
+				}
+				if me.State == "present" {
+					if len(vals) == 0 {
+						if d.Keep {
+							b, _ := json.Marshal(map[string]interface{}{kv.Key: nil})
+							me.Val = canonBytes(b)
+						} else {
+							me.State = "absent"
+						}
+					} else {
+						b, _ := json.Marshal(map[string]interface{}{kv.Key: vals})
+						me.Val = canonBytes(b)
+					}
+				}
+				exps = append(exps, me)
+			}
+		}
+		out = append(out, exps)
+	}
+	return out
+}
+
+// constPaths: every constant reachable from FINAL_OUTPUT through un-anchored objects must appear
+// in the output under exactly its declared names.
+type constPath struct {
+	Path []string
+	Val  string
+}
+
+func constPaths(d *GDecl, prefix []string, out *[]constPath) {
+	if d == nil || !d.HasObject || (len(prefix) > 0 && d.isXPathSet()) {
+		return
+	}
+	for _, kv := range d.Object {
+		p := append(append([]string{}, prefix...), kv.Key)
+		c := kv.D
+		switch {
+		case c.Const != nil && c.Type == nil && strings.TrimSpace(*c.Const) != "":
+			v := *c.Const
+			if !c.NoTrim {
+				v = strings.TrimSpace(v)
+			}
+			*out = append(*out, constPath{p, v})
+		case c.HasObject:
+			constPaths(c, p, out)
+		}
+	}
+}
+
+func lookupPath(v interface{}, path []string) (interface{}, bool) {
+	for _, k := range path {
+		m, ok := v.(map[string]interface{})
+		if !ok {
+			return nil, false
+		}
+		v, ok = m[k]
+		if !ok {
+			return nil, false
+		}
+	}
+	return v, true
 }
